@@ -3,7 +3,7 @@
 
 *)
 From Coq Require Import ZArith NArith List Bool Arith.
-From NSG Require Import Base.Prelude Model.Defender Model.Coord Proofs.CoordBase Proofs.CoordInv Proofs.CoordInvConn Proofs.CoordInvDispatch Proofs.CoordInvHandler Proofs.CoordProps Proofs.CoordDirect.
+From NSG Require Import Base.Prelude Model.Defender Model.Coord Proofs.CoordBase Proofs.CoordInv Proofs.CoordInvConn Proofs.CoordInvDispatch Proofs.CoordInvHandler Proofs.CoordProps Proofs.CoordDirect Proofs.CoordInv2 Proofs.CoordAgentStep.
 Import ListNotations.
 
 (* every processed action sets the reward to the step reward *)
@@ -115,6 +115,45 @@ Theorem C05_reset :
           else fl).
 Proof. exact (@reset_one_effect). Qed.
 
+(* ACROSS LABELS (exactly once): from any reachable state in which an agent has been rewarded, along every continuation without a run of the reset task, the agent - while it is in the game - has exactly the same reward, status, view and step counter: no second bonus, whatever the reward task, other agents or repeated requests do *)
+Theorem C05_once_episode :
+  forall (V W G : Type) (wstep : W -> V -> G -> W * V) (wreset : W -> W) (winit : W -> role -> W * V)
+         (goal : role -> V -> bool) (detect : list G -> G -> bool) (cfg : config) 
+         (w : W) (ls0 ls : list (@label G)) (s s' : @state V W G) (c : addr) (a : @agent V G),
+       @execs V W G wstep wreset winit goal detect cfg (@init_state V W G w) ls0 = @Some (@state V W G) s ->
+       @execs V W G wstep wreset winit goal detect cfg s ls = @Some (@state V W G) s' ->
+       @no_reset G ls ->
+       @alookup (@agent V G) c (@agents V W G s) = @Some (@agent V G) a ->
+       @a_rewarded V G a = true ->
+       (exists a' : @agent V G,
+          @alookup (@agent V G) c (@agents V W G s') = @Some (@agent V G) a' /\
+          @a_rewarded V G a' = true /\
+          @a_ended V G a' = true /\
+          @a_reward V G a' = @a_reward V G a /\
+          @a_status V G a' = @a_status V G a /\
+          @a_view V G a' = @a_view V G a /\ @a_steps V G a' = @a_steps V G a) \/
+       @gone_along V W G wstep wreset winit goal detect cfg s ls c.
+Proof. exact (@rewarded_once_reachable). Qed.
+
+(* in every reachable state a rewarded agent has finished its episode (no bonus before the end) *)
+Theorem C05_rewarded_ended :
+  forall (V W G : Type) (wstep : W -> V -> G -> W * V) (wreset : W -> W) (winit : W -> role -> W * V)
+         (goal : role -> V -> bool) (detect : list G -> G -> bool) (cfg : config) 
+         (w : W) (ls : list (@label G)) (s : @state V W G) (c : addr) (a : @agent V G),
+       @execs V W G wstep wreset winit goal detect cfg (@init_state V W G w) ls = @Some (@state V W G) s ->
+       @alookup (@agent V G) c (@agents V W G s) = @Some (@agent V G) a ->
+       @a_rewarded V G a = true -> @a_ended V G a = true.
+Proof. exact (@rewarded_ended_reachable). Qed.
+
+(* the reward of a finished agent changes only by the reward task paying an agent not yet rewarded, or by the reset *)
+Theorem C05_reward_moves :
+  forall (V G : Type) (cfg : config) (a a' : @agent V G) (l : @label G),
+       @achange V G cfg a l a' ->
+       @a_ended V G a = true ->
+       @a_reward V G a' <> @a_reward V G a ->
+       l = @LRun G TRewards /\ @a_rewarded V G a = false /\ @a_rewarded V G a' = true \/ l = @LRun G TReset.
+Proof. exact (@achange_reward_changes). Qed.
+
 
 (* non-vacuity: a concrete run of the executable instance reaches a state in which a request is
    held back at a barrier (two required players, one has joined) and the model is quiescent *)
@@ -131,6 +170,34 @@ Example C05_nonvacuous :
   end.
 Proof. vm_compute. repeat split; reflexivity. Qed.
 
+(* non-vacuity of the cross-label theorems: a concrete run of the executable instance (one attacker, step limit 1)
+   reaches a state in which the agent has been rewarded (step reward -1 plus fail bonus -10); continuing the run
+   (the released handler answers, the agent is refused a further action, the reward task is not enabled again)
+   the record is exactly the same *)
+Example C05_episode_nonvacuous :
+  let cfg := {| required := 1; max_steps := fun _ => Some 1; r_step := (-1)%Z; r_succ := 100%Z; r_fail := (-10)%Z;
+                allowed := fun _ => true; save_traj := false |} in
+  let ex := execs x_wstep x_wreset x_winit (x_goal []) (x_detect None (0%Z, 1%positive)) cfg in
+  let g := MGame (ScanNetwork, 3%N) true in
+  let ls0 := [LConnect 1%N; LArrive 1%N (CMsg (MJoin (Some (7%N, Some RAttacker)))); LRun (TConn 1%N); LRun TDispatch; LRun (THandler 0);
+              LRun (TConn 1%N); LArrive 1%N (CMsg g); LRun (TConn 1%N); LRun TDispatch; LRun (THandler 1); LRun TRewards] in
+  let ls := [LRun (THandler 1); LRun (TConn 1%N); LArrive 1%N (CMsg g); LRun (TConn 1%N); LRun TDispatch; LRun (THandler 2); LRun (TConn 1%N)] in
+  match ex (init_state [5%N; 6%N; 8%N]) ls0 with
+  | Some s =>
+      match alookup 1%N (agents s), ex s ls with
+      | Some a, Some s' =>
+          a_rewarded a = true /\ a_ended a = true /\ a_reward a = (-11)%Z /\ a_status a = STimeout /\
+          (exists h, In h (handlers s) /\ h_pc h = PRewards true (ScanNetwork, 3%N) 6%N) /\
+          match alookup 1%N (agents s') with
+          | Some a' => a_reward a' = (-11)%Z /\ a_steps a' = 1 /\ length (t_actions (a_traj a')) = 1
+          | None => False
+          end
+      | _, _ => False
+      end
+  | None => False
+  end.
+Proof. vm_compute. repeat split; try reflexivity. eexists. split; [left; reflexivity | reflexivity]. Qed.
+
 Print Assumptions C05_step.
 Print Assumptions C05_bonus.
 Print Assumptions C05_once.
@@ -138,3 +205,6 @@ Print Assumptions C05_only_all_ended.
 Print Assumptions C05_effect.
 Print Assumptions C05_forbidden.
 Print Assumptions C05_reset.
+Print Assumptions C05_once_episode.
+Print Assumptions C05_rewarded_ended.
+Print Assumptions C05_reward_moves.
